@@ -4,8 +4,9 @@
    reader accepts it, and [s] the code units it stands for at width [w]:
      raw units (anything but quote, backslash, LF, TAB, CR),
      backslash + one of  quote backslash slash b t n f r,
-     backslash + u|U + four units read as hexadecimal (not a high surrogate),
-     a high surrogate escape + backslash + u|U + four units (the pair; after D92 the reader
+     backslash + u|U + four hexadecimal digits, either case (not a high surrogate; after D93 the
+     reader refuses a group with fewer than four hexadecimal digits),
+     a high surrogate escape + backslash + u|U + four hexadecimal digits (the pair; after D92 the reader
      checks that the second half is an escape, but not the range of its value).
    [Val w r v r']: a value [v] can be read off the front of [r], leaving [r'] -- the accepted
    language of parseValue as an inductive grammar (RFC 8259 plus what the reader adds: control
@@ -33,6 +34,8 @@ Definition is_u (ch : N) : bool := (ch =? jc_cu) || (ch =? jc_u).
 
 Definition hex4v (h1 h2 h3 h4 : N) : N :=
   match hexrd 0 4 [h1; h2; h3; h4] 0 with JOk c => c | JErr _ => 0 end.
+(* D93: the four units of a hexadecimal group are hexadecimal digits (either case) *)
+Definition hex4ok (h1 h2 h3 h4 : N) : bool := is_hexd h1 && is_hexd h2 && is_hexd h3 && is_hexd h4.
 Definition is_high (code : N) : bool := N.land code 64512 =? 55296.
 Definition pair_code (hi lo : N) : N :=
   m32 (m32 (m32 (N.shiftl (N.lxor hi 55296) 10) + N.land lo 1023) + 65536).
@@ -42,10 +45,11 @@ Inductive SBody (w : N) : list N -> list N -> Prop :=
 | SB_raw c t d : raw_ok c = true -> SBody w t d -> SBody w (c :: t) (c :: d)
 | SB_esc ch v t d : esc_simple ch = Some v -> SBody w t d -> SBody w (jc_bslash :: ch :: t) (v :: d)
 | SB_u ch h1 h2 h3 h4 t d :
-    esc_simple ch = None -> is_u ch = true -> is_high (hex4v h1 h2 h3 h4) = false -> SBody w t d ->
+    esc_simple ch = None -> is_u ch = true -> hex4ok h1 h2 h3 h4 = true -> is_high (hex4v h1 h2 h3 h4) = false -> SBody w t d ->
     SBody w (jc_bslash :: ch :: h1 :: h2 :: h3 :: h4 :: t) (to_utf w (hex4v h1 h2 h3 h4) ++ d)
 | SB_pair ch h1 h2 h3 h4 ch2 l1 l2 l3 l4 t d :       (* D92: the low half is another \u escape (its VALUE stays unchecked) *)
-    esc_simple ch = None -> is_u ch = true -> is_high (hex4v h1 h2 h3 h4) = true -> is_u ch2 = true -> SBody w t d ->
+    esc_simple ch = None -> is_u ch = true -> hex4ok h1 h2 h3 h4 = true -> is_high (hex4v h1 h2 h3 h4) = true -> is_u ch2 = true ->
+    hex4ok l1 l2 l3 l4 = true -> SBody w t d ->
     SBody w (jc_bslash :: ch :: h1 :: h2 :: h3 :: h4 :: jc_bslash :: ch2 :: l1 :: l2 :: l3 :: l4 :: t)
             (to_utf w (pair_code (hex4v h1 h2 h3 h4) (hex4v l1 l2 l3 l4)) ++ d).
 
